@@ -99,3 +99,22 @@ CONTRACTS['path_from_floyd'] = Contract(
     ensures=[])
 CONTRACTS['path_from_floyd'].source = SRC
 CONTRACTS['path_from_floyd'].callees = _PF_CALLEES
+
+
+# ---- C10: global efficiency, weighted = binary on 0/1 matrices -----------------------------------------------------------------------------
+_EB, _EW = _d.CONTRACTS['efficiency_bin'], _dj.CONTRACTS['efficiency_wei']
+_EFF_CALLEES = {
+    'efficiency_bin': callee_from_clauses('efficiency_bin', ['G', 'local'], list(_EB.requires), [e for e in _EB.ensures if e[0] != 'argument-untouched'], [('real',)],
+                                          ghosts={'n0': 'len(G)'}, rebinds={'G': _M, 'e': _M}),
+    'efficiency_wei': callee_from_clauses('efficiency_wei', ['Gw', 'local'], list(_EW.requires), [e for e in _EW.ensures if e[0] != 'argument-untouched'], [('real',)],
+                                          ghosts={'n0': 'len(Gw)', 'L': 'inverse_lengths(Gw)'}, rebinds={'Gl': _M, 'e': _M}),
+}
+CONTRACTS['efficiencies_agree_on_binary'] = Contract(
+    'corollary_src.distances', 'efficiencies_agree_on_binary', ['G'], setup=_setup,
+    requires=[('binary-matrix', _N2 % "Or(G[v, w] == 0, G[v, w] == 1)"), ('at-least-two-nodes', 'n0 >= 2'), ('infinity-exceeds-any-hop-count', 'INF > n0')],
+    ghost_before={'Ew = efficiency_wei(*': "Linv = inverse_lengths(G); assume(lemma_walks(G, n0), lemma_wd(G, n0), lemma_wd_binary(G, n0), lemma_cells(Linv, G, n0))"},
+    ghost_after={'Ew = efficiency_wei(*': "assume(lemma_cells(efficiency_wei__Gl, G, n0))",
+                 'Eb = efficiency_bin(*': "assume(lemma_sdist_support(efficiency_bin__G, G, n0), lemma_cells(efficiency_wei__e, efficiency_bin__e, n0))"},
+    ensures=[('efficiency_wei-equals-efficiency_bin', "result(0) == result(1)")])
+CONTRACTS['efficiencies_agree_on_binary'].source = SRC
+CONTRACTS['efficiencies_agree_on_binary'].callees = _EFF_CALLEES
